@@ -196,7 +196,8 @@ class Gen:
             op = r.choice(CMPS)
             u = r.random()
             if u < 0.08:
-                return {"op": op, "a": self.operand("B", depth), "b": self.operand("B", depth), "t": "B"}
+                return {"op": op, "a": self.operand("B", depth),
+                        "b": self.operand("B" if r.random() < 0.7 else "I", depth), "t": "B"}
             if self.fxp and u < 0.16:
                 return {"op": op, "a": self.operand("F", depth), "b": self.operand("F", depth), "t": "B"}
             e = self.binary_I(op, depth)
@@ -206,8 +207,12 @@ class Gen:
             op = r.choice(["&", "|", "^", "not"])
             if op == "not":
                 return {"un": "not", "a": self.operand("B", depth), "t": "B"}
-            if r.random() < 0.2:
+            u = r.random()
+            if u < 0.2:
                 return {"op": op, "a": self.operand("B", depth), "b": const(r.randrange(0, 2)), "t": "B"}
+            if u < 0.35:
+                # a raw secret integer as the other operand: the library declares it boolean on the fly
+                return {"op": op, "a": self.operand("B", depth), "b": self.operand("I", depth), "t": "B"}
             return {"op": op, "a": self.operand("B", depth), "b": self.operand("B", depth), "t": "B"}
         if fam == "check":
             c = r.choice(["check_zero", "check_nonzero", "check_positive"])
@@ -729,7 +734,9 @@ class CodeGen:
     def bx(self, e):
         """Expression over tracked variables, I variables and constants (both modes)."""
         if "tv" in e:
-            return self.tv(e["tv"])
+            return self.tv(e["tv"]) + "".join("[%d]" % i for i in e.get("path", []))
+        if "list" in e:
+            return "[%s]" % ", ".join(self.bx(x) for x in e["list"])
         if "lv" in e:
             return e["lv"]                       # loop variable of an enclosing _range
         if "ref" in e:
@@ -753,7 +760,7 @@ class CodeGen:
         self.step({"kind": "tracked_init", "desc": {"op": "tracked_init"}})
 
     def st_track(self, s):
-        self.emit("%s = %s" % (self.tv(s["name"]), self.bx(s["e"])))
+        self.emit("%s%s = %s" % (self.tv(s["name"]), "".join("[%d]" % i for i in s.get("path", [])), self.bx(s["e"])))
         self.step({"kind": "track", "desc": {"op": "track"}})
 
     def block_body(self, body):
